@@ -101,10 +101,29 @@ def module_parameters(interp: Any, args: List[Any], kwargs: Dict[str, Any]) -> A
     return r
 
 
+def named_modules_of(obj: Any, prefix: str = "") -> List[Tuple[str, Any]]:
+    out = [(prefix, obj)]
+    for k, v in obj.attrs.items():
+        if is_module(v):
+            out += named_modules_of(v, (prefix + "." if prefix else "") + k)
+        elif k == "__items__":
+            for i, m in enumerate(v):
+                if is_module(m):
+                    out += named_modules_of(m, (prefix + "." if prefix else "") + str(i))
+    return out
+
+
 MODULE = ExtClass(
     "Module",
     (),
-    {"__init__": module_init, "__call__": module_call, "named_parameters": module_named_parameters, "parameters": module_parameters},
+    {
+        "__init__": module_init,
+        "__call__": module_call,
+        "named_parameters": module_named_parameters,
+        "parameters": module_parameters,
+        "named_modules": lambda it, a, k: named_modules_of(a[0]),
+        "named_children": lambda it, a, k: [(n, v) for n, v in a[0].attrs.items() if is_module(v)],
+    },
 )
 
 
